@@ -279,7 +279,7 @@ class Engine:
                     return self.statistics
 
                 L += 1
-                Nl = np.append(Nl, 1)
+                Nl = np.append(Nl, 0)
                 vl = np.append(vl, vl[-1] / (2**beta))
                 cl = np.append(cl, cl[-1] * (2**gamma))
 
